@@ -6,8 +6,8 @@ From Coq Require Import ZifyBool.
 (** A $Number$ representation that the scan accepts has a contiguous table. *)
 Lemma scan_rep_number_contig m r :
   scan_rep m = Ok r -> m_timeline m = None ->
-  0 <= match m_startnr m with Some n => n | None => 1 end ->
-  match m_startnr m with Some n => n | None => 1 end + lenZ (m_files m) <= two32 ->
+  0 <= match m_startnr m with Some n => n | None => 1 end < two32 ->
+  lenZ (m_files m) < two32 ->
   contiguous (segs (trep r)).
 Proof.
   unfold scan_rep. intros H Ht H0 Hl. rewrite Ht in H.
@@ -15,14 +15,14 @@ Proof.
   destruct (uri_kind (r_mediauri rp)); try discriminate.
   destruct (if String.eqb (r_ctype rp) "image" then _ else _) as [thumb mediats].
   destruct (load_number thumb (m_files m) (m_startnr m) (m_endnr m) (r_dsd rp)) as [[sg d]| |] eqn:E; cbn [bind] in H; try discriminate.
-  inversion H; subst r. cbn. eapply load_number_contig; eauto.
+  inversion H; subst r. cbn. eapply load_number_contig_all; eauto.
 Qed.
 
 (** ... and so has the table loaded from the cache file written for it. *)
 Lemma cached_rep_number_contig m r r' :
   scan_rep m = Ok r -> rep_sim r' r -> m_timeline m = None ->
-  0 <= match m_startnr m with Some n => n | None => 1 end ->
-  match m_startnr m with Some n => n | None => 1 end + lenZ (m_files m) <= two32 ->
+  0 <= match m_startnr m with Some n => n | None => 1 end < two32 ->
+  lenZ (m_files m) < two32 ->
   contiguous (segs (trep r')).
 Proof.
   intros Hs Hr Ht H0 Hl. unfold trep; cbn [segs].
